@@ -178,9 +178,16 @@ def f05bSvcs : List RawService :=
   [⟨0, false, [⟨0, 0, false, 1, [1]⟩]⟩, ⟨1, false, [⟨1, 0, false, 1, [1]⟩]⟩,
    ⟨2, false, [⟨2, 0, false, 1, []⟩]⟩, ⟨3, false, [⟨3, 0, false, 1, []⟩]⟩]
 def f05bOps : List BlockOp :=
-  blockOps selClassesNow 2 (fun id => [⟨0, 1599999900000000000 - id * 1000000000⟩]) id
+  blockOps selClassesOld 2 (fun id => [⟨0, 1599999900000000000 - id * 1000000000⟩]) id
     (effMounts 0 (cleanupMounts f05bSvcs)) [⟨1, some 2, [1], [0]⟩] 0
 def f05bEnv : Env := envOf (fun s => s) (fun a b => decide (a < b)) 1600000000000000000 (gather 0 f05bOps)
 def f05bResult : Result := plan f05bEnv 0 (wSorter f05bEnv) f05bSvcs (gather 0 f05bOps).replicas
+
+/-- the same sweep with the select list of the fixed code -/
+def f05bOpsNow : List BlockOp :=
+  blockOps selClassesNow 2 (fun id => [⟨0, 1599999900000000000 - id * 1000000000⟩]) id
+    (effMounts 0 (cleanupMounts f05bSvcs)) [⟨1, some 2, [1], [0]⟩] 0
+def f05bEnvNow : Env := envOf (fun s => s) (fun a b => decide (a < b)) 1600000000000000000 (gather 0 f05bOpsNow)
+def f05bResultNow : Result := plan f05bEnvNow 0 (wSorter f05bEnvNow) f05bSvcs (gather 0 f05bOpsNow).replicas
 
 end ArvVerif.C05
